@@ -22,7 +22,7 @@ func (c18) Size(tier string) Size {
 	return Size{Batches: 16, Cases: 2500}
 }
 func (c18) Rule() string {
-	return "case = resource (soft or struct-backed) over random kinds that always include non-empty []byte, *[]byte and to-many lists of >= 2 IDs in descending order; Copy(), New() and Type.Copy() are taken, then a seeded history of 1-12 mutations is applied to one side at a time (Set, soft-type AddAttr/AddRel/RemoveField, MarshalResource with relationship data, Filter.IsAllowed with a to-many '=', in-place writes into slices obtained from Get); a full snapshot (id, type name, field tables, every value, sequence-exact) of the untouched side is compared before/after every mutation, and backing arrays of slice values are compared right after copying. Non-trivial = resource with >= 1 non-empty slice-valued field; distinct = hash of spec + history."
+	return "case = resource (soft or struct-backed) over random kinds that always include non-empty []byte, *[]byte and to-many lists of >= 2 IDs in descending order (one to-many in three sources was never set); Copy(), New() and Type.Copy() are taken, then a seeded history of 1-12 mutations is applied to one side at a time (Set, soft-type AddAttr/AddRel/RemoveField - also through the exported Type field and through the maps Attrs()/Rels() return -, MarshalResource with relationship data, Filter.IsAllowed with a to-many '=', in-place writes into slices obtained from Get); a full snapshot (id, type name, field tables, every value, sequence-exact) of the untouched side is compared before/after every mutation, and backing arrays of slice values are compared right after copying. Non-trivial = resource with >= 1 non-empty slice-valued field; distinct = hash of spec + history."
 }
 func (c18) Assumptions() []string {
 	return []string{"writes through nullable scalar pointers (*int etc.) are not among the statement's operations and are not performed; element writes into the slice a *[]byte points to are (it is a slice obtained from the resource)",
@@ -197,6 +197,14 @@ func (m c18) Case(c *Ctx, r *RNG) {
 	if t.Rel("many2") != nil {
 		rs.ToMany["many2"] = []string{"y", "x"}[:r.Range(1, 2)]
 	}
+	// ... except that a to-many relationship may never have been set (a nil slice in a struct) next to ones that were
+	if t.Rel("many2") != nil && r.Chance(1, 3) {
+		delete(rs.ToMany, "many2")
+		c.Count("sources_with_a_never_set_to_many")
+	} else if t.Rel("many") != nil && r.Chance(1, 8) {
+		delete(rs.ToMany, "many")
+		c.Count("sources_with_a_never_set_to_many")
+	}
 	nm := r.Range(1, 12)
 	var muts []c18mut
 	kinds := []string{"set", "set", "marshal", "filter", "inplace-bytes", "inplace-ids", "inplace-nbytes", "type-edit", "set-rel", "append-set"}
@@ -227,7 +235,9 @@ func (m c18) Case(c *Ctx, r *RNG) {
 				mu.Many = []string{"q3", "q2", "q1"}[:r.Range(0, 3)]
 			}
 		case "type-edit":
-			mu.Field = []string{"bytes", "many", "extra", "one"}[r.Intn(4)]
+			// "type:" edits go through the exported Type field of a soft resource, "maps:" through the maps that
+			// Attrs() / Rels() return (a wrapped resource has neither: the plain edit is applied instead)
+			mu.Field = []string{"bytes", "many", "extra", "one", "type:extra", "type:bytes", "type:one", "maps:one", "maps:many", "maps:extra"}[r.Intn(10)]
 		}
 		muts = append(muts, mu)
 	}
@@ -409,29 +419,59 @@ func (m c18) run(c *Ctx, t *TypeSpec, rs *ResSpec, muts []c18mut) {
 				}
 			case "type-edit":
 				sr, ok := active.(*jsonapi.SoftResource)
+				via, field := "", mu.Field
+				if i := strings.Index(field, ":"); i >= 0 {
+					via, field = field[:i], field[i+1:]
+				}
+				if ok && via == "type" && sr.Type != nil {
+					if field == "extra" {
+						_ = sr.Type.AddAttr(jsonapi.Attr{Name: "extra", Type: KInt})
+						_ = sr.Type.AddRel(jsonapi.Rel{FromName: "extrarel", ToType: "x"})
+					} else {
+						sr.Type.RemoveAttr(field)
+						sr.Type.RemoveRel(field)
+					}
+					c.Count("type_edits_through_the_type_field")
+					return
+				}
+				if ok && via == "maps" {
+					if field == "extra" {
+						if am := sr.Attrs(); am != nil {
+							am["extra"] = jsonapi.Attr{Name: "extra", Type: KInt}
+						}
+						if rm := sr.Rels(); rm != nil {
+							rm["extrarel"] = jsonapi.Rel{FromName: "extrarel", ToType: "x"}
+						}
+					} else {
+						delete(sr.Attrs(), field)
+						delete(sr.Rels(), field)
+					}
+					c.Count("type_edits_through_returned_maps")
+					return
+				}
 				if !ok {
 					// a wrapped resource exposes its type through GetType / Attrs / Rels
 					gt := active.GetType()
-					switch mu.Field {
+					switch field {
 					case "extra":
 						_ = gt.AddAttr(jsonapi.Attr{Name: "extra", Type: KInt})
 						_ = gt.AddRel(jsonapi.Rel{FromName: "extrarel", ToType: "x"})
 					case "bytes", "one":
-						gt.RemoveAttr(mu.Field)
-						gt.RemoveRel(mu.Field)
+						gt.RemoveAttr(field)
+						gt.RemoveRel(field)
 					default:
-						delete(active.Attrs(), mu.Field)
-						delete(active.Rels(), mu.Field)
+						delete(active.Attrs(), field)
+						delete(active.Rels(), field)
 					}
 					typeEdited[mu.Side] = true
 					return
 				}
-				switch mu.Field {
+				switch field {
 				case "extra":
 					sr.AddAttr(jsonapi.Attr{Name: "extra", Type: KInt})
 					sr.AddRel(jsonapi.Rel{FromName: "extrarel", ToType: "x"})
 				default:
-					sr.RemoveField(mu.Field)
+					sr.RemoveField(field)
 				}
 			}
 		})
@@ -713,6 +753,7 @@ func (m c18) staticCopies(c *Ctx) {
 
 func (m c18) Directed(c *Ctx) {
 	sameNameCheck(c, "C18")
+	tagOptCheck(c, "C18")
 	m.staticCopies(c)
 	for _, wrapped := range []bool{false, true} {
 		t := TypeSpec{Name: "t", Wrapped: wrapped,
